@@ -552,6 +552,57 @@ def _select_reader_path(paths, p, reader=None):
     return None, "no path of json_to_explainable_object matches"
 
 
+def _first_match_as_loop(reader):
+    """`b = next((B for <cols> in TABLE if C), None)` followed by `return b(args) if b is not None else None` (or by
+    `if b is None: return None` and `return b(args)`) reads as the loop it abbreviates:
+        for <cols> in TABLE:
+            if C: return B(args)
+        return None
+    (a copy of the reader; the reader itself when it has no such selection)"""
+    from ..astutil import clone, substitute, set_parents
+    body = reader.body
+    for i, st in enumerate(body):
+        if not (isinstance(st, ast.Assign) and len(st.targets) == 1 and isinstance(st.targets[0], ast.Name)
+                and isinstance(st.value, ast.Call) and isinstance(st.value.func, ast.Name) and st.value.func.id == "next"
+                and len(st.value.args) == 2 and isinstance(st.value.args[1], ast.Constant) and st.value.args[1].value is None
+                and isinstance(st.value.args[0], ast.GeneratorExp) and len(st.value.args[0].generators) == 1):
+            continue
+        x = st.targets[0].id
+        gen = st.value.args[0]
+        g = gen.generators[0]
+        if not (isinstance(g.iter, ast.Name) and isinstance(g.target, ast.Tuple)) or i + 1 >= len(body):
+            continue
+        nxt, use = body[i + 1], None
+        rest = body[i + 2:]
+        if isinstance(nxt, ast.Return) and isinstance(nxt.value, ast.IfExp):
+            t = nxt.value.test
+            if isinstance(t, ast.Compare) and len(t.ops) == 1 and norm(t.left) == x and isinstance(t.comparators[0], ast.Constant) \
+                    and t.comparators[0].value is None:
+                a, b = (nxt.value.body, nxt.value.orelse) if isinstance(t.ops[0], ast.IsNot) else (nxt.value.orelse, nxt.value.body)
+                if isinstance(b, ast.Constant) and b.value is None:
+                    use = a
+        elif isinstance(nxt, ast.If) and not nxt.orelse and len(nxt.body) == 1 and isinstance(nxt.body[0], ast.Return) \
+                and (nxt.body[0].value is None or (isinstance(nxt.body[0].value, ast.Constant) and nxt.body[0].value.value is None)) \
+                and isinstance(nxt.test, ast.Compare) and len(nxt.test.ops) == 1 and isinstance(nxt.test.ops[0], ast.Is) \
+                and norm(nxt.test.left) == x and rest and isinstance(rest[0], ast.Return) and rest[0].value is not None:
+            use, rest = rest[0].value, rest[1:]
+        if use is None or any(isinstance(n_, ast.Name) and n_.id == x for r_ in rest for n_ in ast.walk(r_)):
+            continue
+        test = g.ifs[0] if len(g.ifs) == 1 else (ast.BoolOp(op=ast.And(), values=list(g.ifs)) if g.ifs else ast.Constant(value=True))
+        ret = ast.Return(value=substitute(use, {x: gen.elt}))
+        loop = ast.For(target=clone(g.target), iter=clone(g.iter), body=[ast.If(test=clone(test), body=[ret], orelse=[])],
+                       orelse=[], type_comment=None)
+        view = clone(reader)
+        view.body = [clone(b_) for b_ in body[:i]] + [loop, ast.Return(value=ast.Constant(value=None))]
+        for n_ in ast.walk(view):
+            if isinstance(n_, (ast.expr, ast.stmt)) and not hasattr(n_, "lineno"):
+                ast.copy_location(n_, st)
+        ast.fix_missing_locations(view)
+        view._parent = getattr(reader, "_parent", None)
+        return set_parents(view)
+    return reader
+
+
 def _table_reader_paths(pm, rel, reader):
     """the reader written as a table: `for predicate, read in TABLE: if predicate(d): return read(d, …)` with TABLE a
     module-level list of (lambda d: <test>, <reader function>) pairs. One path per entry: the earlier predicates false,
@@ -561,6 +612,7 @@ def _table_reader_paths(pm, rel, reader):
     from ..astutil import substitute, substitute_stmt
     tree = next((t for m, (r, t, _) in pm.modules.items() if r == rel), None)
     dparam = reader.args.args[0].arg if reader.args.args else "input_dict"
+    reader = _first_match_as_loop(reader)
     loop = next((n for n in ast.walk(reader) if isinstance(n, ast.For) and isinstance(n.iter, ast.Name)
                  and isinstance(n.target, ast.Tuple) and len(n.target.elts) >= 2), None)
     if loop is None or tree is None:
